@@ -275,6 +275,7 @@ func (h *Hist) classify(cfg controller.NodeGroupOptions, nodes []*v1.Node) (unta
 }
 
 var errStraddle = fmt.Errorf("scan straddled a second boundary")
+var errStalled = fmt.Errorf("the machine stalled during a scan that waited on the fleet readiness ticker")
 
 // scan runs one RunOnce and emits the case. Returns the outcome.
 func (h *Hist) scan(faults map[int]bool, failDesc map[string]bool) (string, error) {
@@ -426,7 +427,19 @@ func (h *Hist) scan(faults map[int]bool, failDesc map[string]bool) (string, erro
 	}
 	h.buildErr = nil
 	var runErr error
+	stallReset()
 	outcome := protect(func() error { runErr = h.ctl.RunOnce(); return runErr })
+	if stalled() {
+		// the machine stalled while the scan ran; if the scan waited on the fleet readiness ticker (it polled instance statuses),
+		// the number of polls that fit into the timeout is not the implementation's doing: play another history
+		for _, e := range h.rec.Entries {
+			if m, ok := e.Call.(map[string]interface{}); ok {
+				if _, polled := m["describeStatus"]; polled {
+					return outcome, errStalled
+				}
+			}
+		}
+	}
 	if outcome == "fatal:rebuild-failed" || outcome == "fatal:group-missing" {
 		// a generic error from RunOnce is classified by what the harness knows about the world, not by its text
 		missing := false
